@@ -421,6 +421,7 @@ func runC06(c *Case, out func(string)) {
 	}
 	// distribution
 	nfail, npend, overlaps, crossReads := 0, 0, 0, 0
+	failRotating, failClosed, failOther := 0, 0, 0
 	firstErr := ""
 	writer := map[string]int{}
 	for _, o := range all {
@@ -429,8 +430,16 @@ func runC06(c *Case, out func(string)) {
 		}
 		if o.res == "fail" {
 			nfail++
-			if firstErr == "" {
-				firstErr = o.errText
+			switch {
+			case strings.Contains(o.errText, "WAL is rotating"):
+				failRotating++
+			case strings.Contains(o.errText, "WAL is closed"):
+				failClosed++
+			default:
+				failOther++
+				if firstErr == "" {
+					firstErr = o.errText
+				}
 			}
 		}
 		if o.res == "pending" {
@@ -454,12 +463,12 @@ func runC06(c *Case, out func(string)) {
 		nontrivial = 1
 	}
 	if firstErr != "" {
-		out("NOTE first_error " + strings.ReplaceAll(firstErr, " ", "_"))
+		out("NOTE unexpected_error " + strings.ReplaceAll(firstErr, " ", "_"))
 	}
 	out(fmt.Sprintf("META ops=%d threads=%d keys=%d overlaps=%d cross_reads=%d rotations=%d switches=%d published=%d "+
-		"flush_calls=%d flush_errs=%d compact_calls=%d compact_errs=%d write_fail=%d pending=%d stalls=%d reopened=%v sync=%s stall=%s nontrivial=%d",
+		"flush_calls=%d flush_errs=%d compact_calls=%d compact_errs=%d write_fail=%d fail_rotating=%d fail_closed=%d fail_other=%d pending=%d stalls=%d reopened=%v sync=%s stall=%s nontrivial=%d",
 		len(all), len(tids), len(keyList), overlaps, crossReads, rotations, switches, published,
-		flushCalls.Load(), flushErrs.Load(), compactCalls.Load(), compactErrs.Load(), nfail, npend,
+		flushCalls.Load(), flushErrs.Load(), compactCalls.Load(), compactErrs.Load(), nfail, failRotating, failClosed, failOther, npend,
 		stall.fired.Load(), reopened, syncMode, stall.mode, nontrivial))
 }
 
